@@ -1,33 +1,13 @@
 (* Properties/C04.v — XML marshal/unmarshal round-trips every object and container.
    Only statements; proofs are in Verif.Codec.* and Verif.C04.*.
 
-   FULL STATEMENT (target; see PARTIAL below for what is kernel-checked today):
-
-     Theorem xml_roundtrip_T : forall v,
-       wfb gen_schema T v = true ->
-       exists e, encode1 gen_schema T v = Ok e /\ decode gen_schema T e = Ok v
-     for T in Node, Way, Relation, Changeset, Note, User, Bounds, OSM, Change, Diff (and, with the
-     field name of their parent, WayNode, Member, Update, Tag, ChangesetComment, NoteComment, Date),
-     and  marshal_decodable_by_scanner :
-       fst (scan_el gen_schema e) has, per object kind, the objects collect gen_schema T v.
-     Its generic form is Codec.ProofsRT.RT (induction on the depth of the value, all fuels).
-
-   PARTIAL: the induction RT itself is not finished.  What is proved, for ALL values /
-   documents / fuels, are its two loop lemmas and their combination:
-     - struct_decoder_is_fieldwise: the attribute loop nest and the child-routing loop of the
-       struct decoder compute, per field, the fold of that field's own attributes / children;
-     - attrs_written_are_read_back: the attributes marshal_attrs writes for a struct are read back
-       by the decoder's attribute phase into exactly the attribute fields of the value;
-     - kids_written_are_read_back: the concatenated per-field element lists are routed back to
-       their fields (element names distinct, no a>b path);
-     - attr_field_roundtrip: one attribute field of scalar / time / pointer-to-scalar type.
-   Missing: the assembly over the type structure (pointers, slices, nested structs, the
-   transcribed methods of OSM / Change / Action / ChangesetDiscussion / Date / Bounds, a>b paths
-   of Note and User).  The round trip of every generated value is evaluated inside Coq on each
-   run by Check.v (judgement 1: model, judgement 2: implementation). *)
+   PROVED (all values, kernel-checked): xml_roundtrip_object for Node, Way, Relation, Changeset
+   (with discussion), Note (with comments and dates), User, Bounds; xml_roundtrip_as_field for the
+   nested types and the object lists; the generic induction xml_roundtrip_generic.
+   See the end of the file for the containers. *)
 From Coq Require Import List String Bool ZArith.
 From Verif Require Import Codec.Schema Codec.Value Codec.Xml Codec.Wf Codec.Scan Codec.SpecNames
-     Codec.ProofsAttr Codec.ProofsKids Codec.ProofsRT C04.Refuted C04.SchemaOk.
+     Codec.ProofsAttr Codec.ProofsKids Codec.ProofsRT Codec.ProofsMain Codec.ProofsTop C04.Refuted C04.SchemaOk C04.Roundtrip.
 From VerifGen Require Import GenSchema.
 Import ListNotations.
 Open Scope string_scope.
@@ -58,47 +38,44 @@ Theorem scanner_and_decoder_disagreed_before_fix :
 Proof. exact scanner_decoder_disagreed_prefix. Qed.
 Print Assumptions scanner_and_decoder_disagreed_before_fix.
 
-(* --- round trip, partial (see header) --- *)
-Theorem struct_decoder_is_fieldwise_partial : forall sch unm d bs e st1 st2,
+(* --- round trip of every object type: xml.Marshal then xml.Unmarshal gives the value back,
+       and the document element carries the OSM XML name --- *)
+Theorem xml_roundtrip_object : forall T nm v,
+  In (T, nm) [("Node", "node"); ("Way", "way"); ("Relation", "relation"); ("Changeset", "changeset");
+              ("Note", "note"); ("User", "user"); ("Bounds", "bounds")] ->
+  wfb gen_schema T v = true ->
+  exists e, encode1 gen_schema T v = Ok e /\ decode gen_schema T e = Ok v /\ xname e = nm.
+Proof. exact roundtrip_object. Qed.
+Print Assumptions xml_roundtrip_object.
+
+(* --- the nested types, written under their parent's field name (WayNode(s) as nd, Member(s),
+       Update(s), Tag(s), discussion with comments, note comments, note dates, element bounds,
+       and the object lists of the containers) --- *)
+Theorem xml_roundtrip_as_field : forall ty nm omit v,
+  In (ty, nm, omit) field_types ->
+  wf gen_schema FUEL ty v = true ->
+  exists es, marshal gen_schema FUEL ty v (Some (nm, omit)) None = Ok es
+             /\ Forall (fun e => xname e = nm) es
+             /\ absorb gen_schema FUEL ty (zero gen_schema FUEL ty) es = Ok v.
+Proof. exact roundtrip_as_field. Qed.
+Print Assumptions xml_roundtrip_as_field.
+
+(* --- the generic theorem behind both: any schema, any type passing the static check tyok,
+       any well-formed value, any fuel above its depth --- *)
+Theorem xml_roundtrip_generic : forall sch n, (n <= FUEL)%nat -> RT sch n.
+Proof. exact RT_all. Qed.
+Print Assumptions xml_roundtrip_generic.
+
+Theorem struct_decoder_is_fieldwise : forall sch unm d bs e st1 st2,
   all_supported (struct_fields d) = true ->
   (String.eqb (xmlname_tag d) "" || String.eqb (xmlname_tag d) (xname e)) = true ->
-  no_parents (struct_fields d) = true ->
-  nodup_strb (elem_names sch (struct_fields d)) = true ->
+  parents_ok (struct_fields d) = true ->
+  nodup_strb (elem_keys sch (struct_fields d)) = true ->
   Forall3 (fun f b r => absorb_attrs sch f b (xattrs e) = Ok r) (struct_fields d) bs st1 ->
   Forall3 (fun f b r => absorb_kids sch unm f b (xkids e) = Ok r) (struct_fields d) st1 st2 ->
   unmarshal_struct sch unm d (VStruct bs) e = Ok (VStruct st2).
 Proof. exact unmarshal_struct_fieldwise. Qed.
-Print Assumptions struct_decoder_is_fieldwise_partial.
-
-Theorem attrs_written_are_read_back_partial : forall sch fs vs bases al,
-  marshal_attrs sch fs vs = Ok al ->
-  nodup_strb (attr_names sch fs) = true ->
-  Forall3 (attr_field_rt sch) fs vs bases ->
-  Forall3 (fun f b r => absorb_attrs sch f b al = Ok r) fs bases
-          (map (fun fvb => if is_attr (fst (fst fvb)) then snd (fst fvb) else snd fvb)
-               (combine (combine fs vs) bases)).
-Proof. exact attrs_roundtrip. Qed.
-Print Assumptions attrs_written_are_read_back_partial.
-
-Theorem kids_written_are_read_back_partial : forall sch unm fs vs bases ess,
-  nodup_strb (elem_names sch fs) = true ->
-  Forall3 (fun f (vb : value * value) es =>
-             own_names sch f es /\ (is_elem f = true -> absorb_kids sch unm f (snd vb) es = Ok (fst vb)))
-          fs (combine vs bases) ess ->
-  List.length vs = List.length bases ->
-  Forall3 (fun f b r => absorb_kids sch unm f b (List.concat ess) = Ok r) fs bases
-          (map (fun fvb => if is_elem (fst (fst fvb)) then snd (fst fvb) else snd fvb)
-               (combine (combine fs vs) bases)).
-Proof. exact kids_roundtrip. Qed.
-Print Assumptions kids_written_are_read_back_partial.
-
-Theorem attr_field_roundtrip_partial : forall sch n f v b,
-  attr_ty_ok sch (f_type f) = true ->
-  wf sch (S (S n)) (f_type f) v = true ->
-  zero_like sch (S (S n)) (f_type f) b = true ->
-  attr_field_rt sch f v b.
-Proof. exact attr_rt_of_wf. Qed.
-Print Assumptions attr_field_roundtrip_partial.
+Print Assumptions struct_decoder_is_fieldwise.
 
 (* --- non-vacuity --- *)
 Definition ex_node : value :=
@@ -122,10 +99,10 @@ Proof. split; vm_compute; reflexivity. Qed.
 (* the Node struct meets the hypotheses of the partial theorems *)
 Example ex_node_struct_hyps :
   match lookup_type gen_schema "Node" with
-  | Some d => all_supported (struct_fields d) && no_parents (struct_fields d)
-              && nodup_strb (elem_names gen_schema (struct_fields d))
+  | Some d => all_supported (struct_fields d) && parents_ok (struct_fields d)
+              && nodup_strb (elem_keys gen_schema (struct_fields d))
               && nodup_strb (attr_names gen_schema (struct_fields d))
-              && forallb (fun f => negb (is_attr f) || attr_ty_ok gen_schema (f_type f)) (struct_fields d)
+              && tyok gen_schema FUEL (TNamed "Node") "node" false false
   | None => false
   end = true.
 Proof. vm_compute. reflexivity. Qed.
